@@ -654,6 +654,8 @@ class C13(common.Prop):
                     out = {'fo': out['fo'], 'exc': 'unexpected keys'}
             except BaseException as exc:
                 out['exc'] = type(exc).__name__
+                if isinstance(exc, ValueError) and str(exc).startswith('Chiral node'):
+                    out['chiral_err'] = True
             return out
         if case['kind'] == 'split':
             saved = (rf.strip_bonding_descriptors, rf.read_fragment_smiles)
@@ -698,6 +700,8 @@ class C13(common.Prop):
     def coq_case(self, case, impl):
         if case['kind'] == 'template':
             fo = lit.lst([lit.pair(lit.s(p), lit.opt(r, lit.s)) for p, r in impl['fo']])
+            if impl.get('chiral_err'):
+                return '(CTemplateChiralErr %s %s %s)' % (lit.s(case['name']), lit.s(case['text']), fo)
             if 'exc' in impl:
                 obs = 'None'
             else:
@@ -805,7 +809,7 @@ class C13(common.Prop):
         if case['kind'] == 'smiles':
             return 'pysmiles:' + (impl['full'].get('exc') or 'graph')
         if case['kind'] == 'template':
-            return 'template:' + (impl.get('exc') or 'graph')
+            return 'template:' + ('chiral-refused' if impl.get('chiral_err') else (impl.get('exc') or 'graph'))
         if case['kind'] != 'strip':
             return 'helper:' + case['kind']
         if not case.get('judge'):
